@@ -130,7 +130,10 @@ where
     let diff_pattern = format!(r"^\+\+\+\s(?:.*?/){{{skip_prefix}}}(\S*)");
     let diff_pattern = Regex::new(&diff_pattern).unwrap();
 
-    let lines_pattern = Regex::new(r"^@@.*\+(\d+)(,(\d+))?").unwrap();
+    // The post-image range is the first `+start[,count]` of a hunk header. The match must not be
+    // greedy: git appends the enclosing function's text after the second `@@`, and that text may
+    // itself contain something like `+1`.
+    let lines_pattern = Regex::new(r"^@@.*?\+(\d+)(,(\d+))?").unwrap();
 
     let file_filter = Regex::new(&format!("^{file_filter}$"))?;
 
